@@ -254,6 +254,9 @@ def r3(R3, R4, cfg, F):
     wg = [c for c in b.calls() if c.callee and re.search(r'utils::private::RwLock::<T>::write$', c.callee.best)]
     sw = [c for c in b.calls() if c.callee and c.callee.best == 'entry::swap_any']
     inc = [c for c in b.calls() if c.callee and c.callee.best == 'entry::AtomicReloadId::increment']
+    if not inc and not F.body('entry::AtomicReloadId::increment'):
+        # (the one-line helper written into the writer: `d.reload.0.fetch_add(1, ..)`; C18.R3 checks its operands)
+        inc = [c for c in b.calls() if c.callee and c.callee.name == 'fetch_add' and 'atomic::Atomic' in c.callee.best and 'reload' in (b.access_path(c.args[0]) or [])]
     st = [c for c in b.calls() if c.callee and c.callee.name == 'store' and 'Atomic::<bool>' in c.callee.best]
     if len(wg) != 1 or len(sw) != 1 or len(inc) != 1 or len(st) != 1:
         R3.unrecognised(cfg, b.path, 'one lock.write(), one swap_any, one increment, one store (found %d,%d,%d,%d)' % (len(wg), len(sw), len(inc), len(st)), b.loc())
@@ -272,6 +275,8 @@ def r3(R3, R4, cfg, F):
              cfg, b.path, 'order:lock<swap<increment<store', 'the writer must lock, swap, bump the reload id, then raise the global flag, in that order', sw.loc())
     # the id/flag belong to the same Dynamic as the lock
     api, aps = b.access_path(inc.args[0]), b.access_path(st.args[0])
+    if api and api[-3:] == ['reload', '0', '&']:
+        api = api[:-2] + ['&']
     base = ap[:-2] if ap else None
     R3.check(bool(api) and bool(aps) and api[:-2] == base and aps[:-2] == base and api[-2] == 'reload' and aps[-2] == 'reload_global', cfg, b.path,
              'counters-of-the-locked-entry', 'reload id / global flag updated are not those of the locked entry (%s, %s vs %s)' % (api, aps, ap), inc.loc())
